@@ -246,7 +246,7 @@ def ch_e2e(ctx) -> Channel:
     import segwalk
     import mp4walk
     ch = Channel("vod_e2e", rule=(
-        "every template x {vod, odvod} it supports x streams bbb, tears, syn1..syn4 (syn4: audio timing reference of 7.151746 s) x option subsets: every "
+        "every template x {vod, odvod} it supports x streams bbb, tears, syn1..syn5 (syn4: audio timing reference of 7.151746 s; syn5: fragments numbered from 0) x option subsets: every "
         "enumerated segment fetched (all numbers startNumber..startNumber+N-1, all timeline entries, all "
         "SegmentList ranges) plus the one past the end; statuses, decode times, durations, payloads and byte "
         "ranges checked against the stored files; non-trivial = fetched media segment/range; distinct by (url, rep, value)"))
@@ -256,7 +256,7 @@ def ch_e2e(ctx) -> Channel:
     now = datetime.datetime(2023, 5, 1, 12, 0, 3, tzinfo=datetime.timezone.utc)
     temps = vod_templates()
     cases = []
-    for stream in ("bbb", "tears", "syn1", "syn2", "syn3", "syn4"):
+    for stream in ("bbb", "tears", "syn1", "syn2", "syn3", "syn4", "syn5"):
         for name, mode in temps:
             opts = []
             if rng.random() < .5 and mode == "vod":
@@ -468,7 +468,7 @@ def search(ctx, disagreements):
     import types
     c2 = types.SimpleNamespace(tier="thorough", thorough=True, seed=ctx.seed + 15485863,
                                rng=lambda name: common.rng_for(ctx.seed + 15485863, name),
-                               scale=lambda q, t: t)
+                               scale=lambda q, t: t if ctx.thorough else max(q, t // 5))
     for fn in (ch_pure, ch_boxindex, ch_e2e):
         ch = fn(c2)
         if ch.oracle_failures:
